@@ -1202,6 +1202,8 @@ class Interp:
             return ListV([_deep_clone(args[0]) for _ in range(args[1])])
         if cn in ("std::string::String::new", "alloc::string::String::new", "std::string::String::with_capacity"):
             return Rope()
+        if cn.endswith("ops::RangeInclusive::new") and len(args) == 2:
+            return Var("std::ops::RangeInclusive", fields={"start": args[0], "end": args[1]})
         if cn.startswith(("<indexmap::IndexMap", "<std::collections::HashMap", "<std::vec::Vec", "<indexmap::IndexSet", "<std::collections::HashSet", "<std::collections::VecDeque")) and cn.endswith(("::from", "::from_iter")) and len(args) == 1 and isinstance(args[0], ListV):
             items = list(args[0].items)
             if ("Map" in cn.split(" as ")[0]) and all(isinstance(x, tuple) and len(x) == 2 for x in items):
@@ -1615,6 +1617,8 @@ class Interp:
             return tot
         if name == "count" and isinstance(recv, ListV) and not args:
             return len(recv.items)
+        if name in ("min", "max") and cn.endswith(("Iterator::min", "Iterator::max")) and isinstance(recv, ListV) and not args and all(isinstance(x, int) and not isinstance(x, bool) for x in recv.items):
+            return Var(SOME_PATHS[0], [min(recv.items) if name == "min" else max(recv.items)]) if recv.items else Var(NONE_PATHS[0])
         if name == "chain" and isinstance(recv, ListV) and len(args) == 1 and isinstance(args[0], ListV):
             return ListV(list(recv.items) + list(args[0].items))
         if name == "filter" and isinstance(recv, ListV) and len(args) == 1:
